@@ -27,6 +27,10 @@ OBLIGATIONS = krow_reader_obligations() + [
         bounds="real Table on the lxml model: row [1, empty x 0..3] + 0..3 empty rows; Markdown, plain text, RST, str(), CSV export, each twice",
         encodes=["src/odfdo/mixin_md.py:MDTable._md_format", "src/odfdo/table.py:Table.get_formatted_text,_get_formatted_text_normal,_get_formatted_text_rst,__str__,to_csv,optimize_width,rstrip"],
         stubs=["/verif/shadow/lxml (symdom)"]),
+    Obl(name="text_export_twice", module="h_export", func="text_export_twice", shadow=True, timeout=300, replay="r_h_export:text_export_twice", weight=46,
+        bounds="Paragraph or Header (symbolic) 'T'+t (t <= 1 character) holding 0..2 notes without citation label; get_formatted_text(simple symbolic) twice, and on an identical element built afresh",
+        encodes=["src/odfdo/paragraph_base.py:ParagraphBase.get_formatted_text,_formatted_text", "src/odfdo/header.py:Header.get_formatted_text", "src/odfdo/note.py:Note.get_formatted_text"],
+        stubs=["/verif/shadow/lxml (symdom)"]),
     Obl(name="count_pure_ws", module="h_repl", func="count_pure_ws", shadow=True, timeout=300, replay="r_h_repl:count_pure_ws", weight=30,
         bounds="replace(pattern, formatted=True) in count mode on a raw text node of <= 3 characters over {a, space, tab}",
         encodes=["src/odfdo/element.py:Element.replace (count mode)"], stubs=["/verif/shadow/lxml (symdom)"]),
